@@ -63,6 +63,10 @@ def build(rnd):
 def one(seed):
     rnd = random.Random(seed)
     heur = rnd.choice(["none", "trace", "logdet0", "logdet1", "logdet2", "logdet3", "logdetx", "nuclear", "logdet"])
+    import zlib as _z
+    if _z.crc32(("biglogdet/%d" % seed).encode()) % 9 == 0:
+        # many rounds (two-digit counts): every round must be issued, the instance kept is the one of the LAST solve
+        heur = ["logdet10", "logdet12", "logdet19", "logdet31"][_z.crc32(("rounds/%d" % seed).encode()) % 4]
     mode = rnd.choice(["dual", "dual", "primal", "both"])
     fail = rnd.random() < .1
     pep, c0 = build(rnd)
